@@ -251,6 +251,8 @@ XCHECK = [
      "(ll_divisions [0;10;20;30]%Z [7;3;12;25;15]%Z, ll_parts [0;10;20;30]%Z [[0;3;3;7];[10;12;15];[20;25;30]]%Z [7;3;12;25;15]%Z)"),
     ("(loc_model (0 10 20 30) ((0 5) (10 15) (20 25 30)) (some 12) (some 22))",
      "(ls_start [0;10;20;30]%Z (Some 12%Z), ls_stop [0;10;20;30]%Z (Some 12%Z) (Some 22%Z), loc_divisions [0;10;20;30]%Z (Some 12%Z) (Some 22%Z), loc_parts [0;10;20;30]%Z [[0;5];[10;15];[20;25;30]]%Z (Some 12%Z) (Some 22%Z))"),
+    ("(sp_model (0 10 10 30) (30 0 10 29 9 -1 31))",
+     "(map (sp_part [0;10;10;30]%Z) [30;0;10;29;9;-1;31]%Z, sp_parts [0;10;10;30]%Z [30;0;10;29;9;-1;31]%Z)"),
 ]
 
 
@@ -308,7 +310,7 @@ def extraction_crosscheck():
     os.makedirs(os.path.join(BUILD, "cases"), exist_ok=True)
     path = os.path.join(BUILD, "cases", "xcheck_%d.v" % os.getpid())
     with open(path, "w") as f:
-        f.write("From DX Require Import Base TreeReduce Repart Divisions MinMax Loc LocList Align Select.\nSet Printing Width 1000000.\nSet Printing Depth 100000.\n")
+        f.write("From DX Require Import Base TreeReduce Repart Divisions MinMax Loc LocList Align Select SetIndex.\nSet Printing Width 1000000.\nSet Printing Depth 100000.\n")
         for _, t in XCHECK:
             f.write("Eval vm_compute in (%s).\n" % t)
     rc, out = sh("timeout 600 coqc -Q %s DX %s" % (COQ, path), cwd=os.path.dirname(path))
@@ -477,7 +479,7 @@ class Run:
 
 COMMON_TRUSTED = [
     "Coq 8.16.1 kernel (coqc), vm_compute for reflective/bounded lemmas; no native_compute",
-    "extraction to OCaml with ExtrOcamlBasic only (its Extract Inductive for bool,list,option,prod,unit,sumbool) + ocaml/driver.ml glue; 31 fixed calls are evaluated by the server and by vm_compute inside Coq on every run and compared (coverage.extraction_cross_check)",
+    "extraction to OCaml with ExtrOcamlBasic only (its Extract Inductive for bool,list,option,prod,unit,sumbool) + ocaml/driver.ml glue; 32 fixed calls are evaluated by the server and by vm_compute inside Coq on every run and compared (coverage.extraction_cross_check)",
     "the Gallina model is hand-written and tied to /repo by the correspondence runs reported in this file, except: the class table (harness/gen_tables.py) and the bodies of 11 small methods (harness/gen_source.py, a ~300-line Python-AST -> Gallina translator over coq/PySeq.v, fail-closed) are regenerated from the source on every run; the translators and PySeq.v's reading of Python indexing/slicing are trusted",
 ]
 
